@@ -196,7 +196,7 @@ def check(ctx):
         "machine files holding two contracts that print alike (same four digits) but differ beyond the tolerance; compound contracts "
         "through to_dict / from_strings and the human-readable file, alternative by alternative (a guarantee alternative restating an "
         "assumption alternative, repeated alternatives). non-trivial = the contract has at least one constraint; distinct by canonical contract")
-    proved = ctx.prove("props/C10.v", ["proofs/JsonFacts.v", "proofs/PrinterFacts.v", "proofs/JsonGenValidate.v", "proofs/JsonGenDict.v", "proofs/JsonGenFile.v", "proofs/PrinterGenOpposite.v", "proofs/PrinterGenLhs.v", "proofs/PrinterGenFold.v"])
+    proved = ctx.prove("props/C10.v", ["proofs/JsonFacts.v", "proofs/PrinterFacts.v", "proofs/JsonGenValidate.v", "proofs/JsonGenDict.v", "proofs/JsonGenFile.v", "proofs/PrinterGenOpposite.v", "proofs/PrinterGenLhs.v", "proofs/PrinterGenFold.v", "proofs/JsonGenCompound.v", "proofs/JsonCompoundFacts.v"])
     proved = ctx.prove("props/C10b.v", ["proofs/RoundTripFacts.v"]) and proved      # the string half: printed strings read back
     ctx.build(["model/Json.vo", "model/Printer.vo"])
     rng = random.Random(ctx.seed + 10)
